@@ -95,7 +95,7 @@ class PGen(object):
     def __init__(self, rng, sc, faults):
         self.rng, self.sc, self.faults = rng, sc, faults
         self.t = sc.t
-        self.assets = bw.ASSETS[:rng.randint(1, 4)]
+        self.assets = (bw.ODD_ASSETS if rng.random() < 0.2 else bw.ASSETS)[:rng.randint(1, 4)]
         self.mode = rng.choice(['zero', 'flat', 'prop'])
         self.n = 0
         self.queue = []
